@@ -275,6 +275,13 @@ OPS = [
   ("form_signature_trailing_junk", "*", op_key("Potential-Form", lambda k, v: k.startswith("other"), lambda k, rng: k + rng.choice(["junk", " x", ")"]))),
   ("formula_pymath_wrong_arity", "*", op_value("Potential-Form", lambda k, v: k.startswith("other"), lambda v, rng: rng.choice(["k + pymath.log(r + 1, 2, 3)", "k + pymath.exp()", "k + pymath.pow(r)"]))),
   ("forms_mutually_recursive", "*", lambda it, info, rng: (bm.sec(it, "Potential-Form")[1].extend([["ra(r)", "rb(r) + 1"], ["rb(r)", "ra(r) * 2"]]), bm.sec(it, "Pair")[1][-1].__setitem__(1, "ra"), it)[2]),
+  ("form_parameter_named_like_exprtk_literal_in_other_case", "*", lambda it, info, rng: (lambda kv, nm: (kv.__setitem__(0, "cf(r, %s, rho)" % nm), kv.__setitem__(1, re.sub(r"\bA\b", nm, kv[1])), it)[2])(entry(it, lambda k, v: k.startswith("cf"), "Potential-Form"), rng.choice(["True", "FALSE", "Null", "TRUE"]))),
+  ("unused_form_with_unparsable_formula", "*", lambda it, info, rng: (bm.sec(it, "Potential-Form")[1].append(["unusedf(r, q)", rng.choice(["q */ r", "q/(r+1", "q + nosuchsymbol*r", "q + other(r"])]), it)[1]),
+  ("form_used_only_beyond_cutoff_with_unparsable_formula", "*", lambda it, info, rng: (bm.sec(it, "Potential-Form")[1].append(["farf(r, q)", "q */ r"]), bm.sec(it, "Pair")[1][0].__setitem__(1, bm.sec(it, "Pair")[1][0][1] + " >=500.0 farf 1.0") if ">" not in bm.sec(it, "Pair")[1][0][1] and not bm.sec(it, "Pair")[1][0][1].startswith(("sum(", "spline(", "trans(")) else None, it)[2]),
+  ("non_ascii_form_label", "*", lambda it, info, rng: (bm.sec(it, "Potential-Form")[1].append([rng.choice(["g\u00e9(r, q)", "\u03c6(r, q)"]), "q*r"]), it)[1]),
+  ("non_ascii_symbol_in_formula", "*", op_value("Potential-Form", lambda k, v: k.startswith("other"), lambda v, rng: v + rng.choice([" + \u03c0", " * \u00e5"]))),
+  ("non_ascii_table_form_name", "*", lambda it, info, rng: (it.append(["Table-Form:tab\u00e9", [["x", "0 1 2 3 4 10"], ["y", "1 2 3 4 5 6"]]]), it)[1]),
+  ("table_form_section_without_name", "*", lambda it, info, rng: (it.append([rng.choice(["Table-Form", "Table-Form:", "Table-Form :  "]), [["x", "0 1 2 3 4 10"], ["y", "1 2 3 4 5 6"]]]), it)[1]),
   ("form_label_not_identifier", "*", op_key("Potential-Form", lambda k, v: k.startswith("other"), lambda k, rng: "2other(r, k)")),
   ("formula_undefined_variable", "*", op_value("Potential-Form", lambda k, v: k.startswith("cf"), lambda v, rng: v.replace("rho", "sigma", 1))),
   ("formula_undefined_function", "*", op_value("Potential-Form", lambda k, v: k.startswith("cf"), lambda v, rng: v.replace("other(", "another("))),
@@ -300,6 +307,8 @@ OPS = [
   ("bare_dollar", "*", in_any_section(lambda v, rng: " ".join(v.split()[:-1] + ["$5"]))),
   ("placeholder_in_tabulation_unresolvable", "*", lambda it, info, rng: set_tab(it, "cutoff", "${rcut}")),
   # ---- not an INI file
+  ("file_not_utf8_latin1_comment", "*", raw(lambda t, rng: ("# cutoff in \u00c5ngstr\u00f6m\n" + t).encode("latin-1"))),
+  ("file_not_utf8_binary", "*", raw(lambda t, rng: b"PK\x03\x04\x14\x00\x06\x00\x08\x00\x00\x00!\x00\xff\xfe\x9c\xa8" + t.encode("utf8"))),
   ("text_without_section_header", "*", raw(lambda t, rng: "nr : 10\n" + t)),
   ("unterminated_section_header", "*", raw(lambda t, rng: t.replace("[Pair]", "[Pair", 1))),
   ("line_without_delimiter", "*", raw(lambda t, rng: t.replace("[Pair]\n", "[Pair]\nthis line has no delimiter\n", 1))),
@@ -395,7 +404,7 @@ def run_case(case, ctx):
   if mutated is None:
     ctx.count("operator_not_applicable")
     return
-  text = mutated if isinstance(mutated, str) else bm.items_text(mutated)
+  text = mutated if isinstance(mutated, (str, bytes)) else bm.items_text(mutated)
   if text == bm.items_text(items):
     ctx.count("operator_made_no_change")
     return
